@@ -72,7 +72,8 @@ def route(rep, model, method='cycles', detector='detect_bursts_cycles', rule='RO
         sh = [x for x in E.calls_to(ctx, 'compute_shape_features') if x['kind'] == 'pkgcall']
         want_sh = {'sig': ('param', 'sig'), 'fs': ('param', 'fs'), 'f_range': ('param', 'f_range'), 'center_extrema': ('param', 'center_extrema'),
                    'find_extrema_kwargs': ('param', 'find_extrema_kwargs')}
-        if len(sh) == 1 and sh[0]['bound'] == want_sh and sh[0]['guard'] == T.TRUE and not sh[0]['problems']:
+        # only the arguments the labels depend on are pinned here; the band-amplitude filter length is C04's BAND-WIRING, return_samples C09's RS-LATE
+        if len(sh) == 1 and {k: sh[0]['bound'].get(k) for k in want_sh} == want_sh and sh[0]['guard'] == T.TRUE and not sh[0]['problems']:
             rep.ok(rule, inst + ':shape call', site, found='compute_shape_features(sig, fs, f_range, center_extrema=, find_extrema_kwargs=) bound by name')
         else:
             rep.violation(rule, inst + ':shape call', site, expected={k: T.show(v) for k, v in want_sh.items()},
